@@ -588,6 +588,28 @@ void splinetable<Alloc>::write_fits(const std::string& filePath) const{
 			throw std::runtime_error("Writing "+filePath+" failed: the file is incomplete");
 		}
 	}
+	else
+	{
+		//CFITSIO does not look at the outcome of writing the compressed
+		//stream either. Have it expanded again: that fails unless the stream
+		//is complete (its checksum and length come last), and the size of
+		//the result is known.
+		fitsfile* check = nullptr;
+		int status = 0, n_hdus = 0, hdu_type = 0;
+		LONGLONG dataend = -1;
+		fits_open_diskfile(&check, filePath.c_str(), READONLY, &status);
+		fits_get_num_hdus(check, &n_hdus, &status);
+		fits_movabs_hdu(check, n_hdus, &hdu_type, &status);
+		fits_get_hduaddrll(check, &headstart, &datastart, &dataend, &status);
+		if (check){
+			int close_status = 0;
+			fits_close_file(check, &close_status);
+		}
+		if (status != 0 || dataend != expected_size){
+			remove(filePath.c_str());
+			throw std::runtime_error("Writing "+filePath+" failed: the file is incomplete");
+		}
+	}
 }
 	
 template<typename Alloc>
